@@ -2,7 +2,7 @@
 # tools/mutate.sh <patch.diff> <Cxx> [<Cyy> ...]   — apply a seeded change to the persistent scratch worktree,
 # run the named checks against it (evidence/replays go below the scratch work dir), and undo the change.
 set -u
-WT=/tmp/wt-test
+WT=${WT:-/tmp/wt-test}
 PATCH=$(readlink -f "$1"); shift
 cd "$(dirname "$0")/.."
 git -C $WT checkout -q -- . || exit 2
